@@ -13,7 +13,7 @@ NOTE = ("Trusted base: Lean 4.33.0 kernel with axioms propext/Classical.choice/Q
 
 # id -> (category, technique, text, design_ref, extra note)
 CLAIMS = {
-    'C01': ('proof', 'Lean 4 refinement proof of the radix tree to a coverage semantics (mutual structural induction over the nested node type, tree invariant, signed port coding) + differential tie with near-miss probes',
+    'C01': ('proof', 'Lean 4 refinement proof of the radix tree to a coverage semantics (mutual structural induction over the nested node type, tree invariant, signed port coding) + differential tie with near-miss probes + the binary-search loop of the library proved equal to the ordered scans of the model at every node of every buildable tree',
             "Theorems (Props/C01.lean, Proofs/Tree.lean, Proofs/Ports.lean): C01_tree - for every finite list of well-formed patterns in every order and multiplicity and every origin, the tree built by successive Insert "
             "contains the origin iff some listed pattern denotes it (Spec.denotes: same scheme; host byte-equal, or ending in `.`+base with at least one more byte in front for `*.`; port equal or arbitrary for `:*`); C01_order - the verdict "
             "depends only on the set of patterns; C01_invariant - sorted edges/schemes/ports and label = first byte of each child's suffix hold for every tree the code can build; C01_parsed - every pattern ParsePattern accepts is well-formed; "
@@ -22,14 +22,14 @@ CLAIMS = {
             "of the new entry (descend, subsumption short-cut, new leaf, split into child'/grandchildren), including the Go code's peculiar duplicate test in node.add. Tie: tree suite (ParsePattern+Insert / Parse+Contains on pattern lists sharing "
             "non-boundary suffixes with probes derived from every pattern), lex suite (Parse), decision bits of the serve suite.",
             '6/C01', "C01_parsed/C01_config/C01_request assume that the IPv6 oracle never accepts a literal starting with `*` (true of netip.ParseAddr). Serialised origins with IP-literal hosts rest on the netip oracle (tie only); bracketed non-IP hosts are matched after bracket stripping (DESIGN 8.9)."),
-    'C02': ('proof', 'Lean 4 theorem (browser verdict computed by a transcription of CORS-preflight fetch / CORS check on the model\'s responses = documented meaning, all configurations x intents x debug modes x tolerated ACRH shapes) + strict differential tie of whole responses + browser verdict evaluated in Lean on the implementation\'s responses',
+    'C02': ('proof', 'Lean 4 theorem (browser verdict computed by a transcription of CORS-preflight fetch / CORS check on the model\'s responses = documented meaning, all configurations x intents x debug modes x tolerated ACRH shapes) + strict differential tie of whole responses + browser verdict evaluated in Lean on the implementation\'s responses + the request path of middleware.go (closure of Wrap, the three handlers, the four pipeline steps) translated from Go to Lean on every run and proved equal to the model',
             "Theorems C02 / C02_accepted / C02_invariance (Props/C02.lean): for every accepted configuration (what acceptance guarantees is itself proved: ICfg.WF, ICfg.ReqHdrsSound), either debug mode, every browser intent (serialised origin, method token, "
             "token header names, credentials mode, private-network target) and every tolerated shape of the ACRH list (Browser.Tolerated: split over lines, <=1 OWS byte per side, <=16 empty elements), Browser.verdict - the transcription of "
             "CORS-preflight fetch step 7, the PNA requirement and the CORS check in Spec/Browser.lean, evaluated on the responses of the model of Wrap - equals Browser.permits, the documented meaning; hence the verdict is independent of debug mode and of tolerated alterations. "
             "C02_preflight_verdict / C02_debug_steps / steps_ok_iff: server-side characterisation of the pipeline for every decision oracle. With C01_request the origin clause is `some listed pattern denotes the origin`. "
             "Tie: serve suite (strict comparison of status, every header and the decision bits, both debug modes, ACRH perturbations) and intents suite (the same Browser.verdict computed by the Lean driver on the Go middleware's actual responses must equal Browser.permits of the model's internal configuration).",
             '6/C02', 'Spec/Browser.lean is a trusted reading of the Fetch standard and PNA draft. Intents are restricted to serialised origins that the request-side lexer parses, method tokens and token header names (what browsers emit).'),
-    'C03': ('proof', 'Lean 4 theorem (case analysis over the four dispatch paths, buffer invariant for the preflight pipeline) + differential tie',
+    'C03': ('proof', 'Lean 4 theorem (case analysis over the four dispatch paths, buffer invariant for the preflight pipeline) + differential tie + the request path of middleware.go (closure of Wrap, the three handlers, the four pipeline steps) translated from Go to Lean on every run and proved equal to the model',
             "Theorems C03 / C03_model / C03_accepted (Props/C03.lean): for every decision oracle, every accepted (well-formed) configuration, "
             "both debug modes, every request and pre-set headers, the model's response satisfies every clause of C03Spec (ACAO is `*` only for "
             "non-credentialed allow-all or the byte-exact first Origin of an allowed origin; ACAC only `true` next to such an echo when credentialed; "
@@ -56,19 +56,19 @@ CLAIMS = {
             "insertion stores only the new entry), Render.lean (Itoa vs the digit readers), RoundTrip.lean (rendering an accepted pattern gives back the string it was parsed from), TreeRoundTrip.lean, CfgRoundTrip.lean, C06Assembly.lean. "
             "Tie: the `roundtrip` suite builds four middlewares (from c, from Config(), zero+Reconfigure, Reconfigure(Config())) and compares their Go responses pairwise in both debug modes plus Config() stability; the `history` suite includes Reconfigure(Config()) steps; the `validate` suite compares Config() with the model's.",
             '6/C06', 'Nothing in the statement is left to the tie alone; the theorems keep one hypothesis about the IPv6 oracle (it accepts no text starting with `*`), which C06_stable_std discharges for the modelled net/netip that the driver uses.'),
-    'C07': ('proof', 'Lean 4 invariant proof over a lock-level small-step model (any number of threads, any schedule) with programs regenerated from the source + schedule-point harness + race-detector stress',
+    'C07': ('proof', 'Lean 4 invariant proof over a lock-level small-step model (any number of threads, any schedule) with programs regenerated from the source + schedule-point harness + race-detector stress + regenerated list of receiver-mutating methods pinned to the construction-time methods',
             "Theorems C07_drf (in every reachable state a thread about to write a guarded field has no concurrent reader/writer of a guarded field) and C07_atomic (when a reader leaves its critical section everything it read there equals the shared state "
             "at that instant and no writer is inside a critical section), by induction over arbitrary traces of arbitrarily many threads running well-locked programs (Props/C07.lean, Model/Conc.lean); C07_facts / C07_wrap_snapshot / C07_only_these / C07_immutable "
             "(decide over facts regenerated from middleware.go on every run): the instruction lists of Wrap's handler, Reconfigure, SetDebug, Config, NewMiddleware are well-locked with one critical section each, Wrap reads both fields inside its read region, "
             "no other function touches the guarded fields, the request path never writes through the configuration; C07_published_immutable: every statement that writes into an internalConfig value (regenerated list function|field|kind) sits in a construction function, so neither Config()/newConfig nor the request path writes into a published configuration. Tie: `schedule` suite (Reconfigure/SetDebug/Config executed from inside Header(), WriteHeader and the wrapped handler; response must be that of the "
             "entry state, next request that of the new state), `stress` suite (every response equals that of one of the four states; thorough tier under go build -race), `history` suite.",
             '6/C07', 'PARTIAL w.r.t. the Go runtime: that sync.RWMutex implements the modelled lock semantics, that the Go memory model makes lock-ordered accesses race-free, and that the extracted instruction lists are what the compiled code does, are trusted; the race detector and the schedule-point harness exercise them.'),
-    'C08': ('proof', 'Lean 4 theorem on the sequential state machine + history correspondence',
+    'C08': ('proof', 'Lean 4 theorem on the sequential state machine + history correspondence + Reconfigure / SetDebug translated from Go to Lean on every run and proved equal to the transitions of the model',
             "Theorems C08 / C08_error_iff / C08_obs (Props/C08.lean): for every state and every Config that validation rejects, Reconfigure returns the "
             "error and the model state (configuration, debug) is literally unchanged, hence all responses and Config() too. Tie: random histories "
             "with invalid reconfigurations, probes after every step.",
             '6/C08', 'Trivial in the model because validation builds a fresh value before the critical section; that shape of the Go code is what the history suite checks.'),
-    'C09': ('proof', 'Lean 4 simulation proof by induction over operation lists + history correspondence',
+    'C09': ('proof', 'Lean 4 simulation proof by induction over operation lists + history correspondence + the request path of middleware.go (closure of Wrap, the three handlers, the four pipeline steps) translated from Go to Lean on every run and proved equal to the model',
             "Theorems C09_sim_zero / C09_sim_new / C09_ctor (Props/C09.lean): over operation sequences of any length the model of "
             "Middleware follows the documented debug state machine (off after creation, SetDebug no-op on passthrough, kept by successful Reconfigure, "
             "cleared by Reconfigure(nil), untouched by a failed one); C09_reachable_accepted / C09_reachable_response: after any such sequence the middleware is passthrough or holds the internal form of an accepted Config, and every response of the handler returned by Wrap is the untouched pass-through or Serve.serve icfg debug with the debug mode the state machine prescribes (so the per-configuration theorems of the other properties speak about every reachable state); C09_nonpreflight / C09_preflight_next: debug has no influence on non-preflight "
@@ -76,12 +76,12 @@ CLAIMS = {
             "(Allow-Origin/-Credentials/-Private-Network/-Methods/-Headers, Max-Age) is identical in both debug modes; C09_preflight_success: a preflight that succeeds without debug mode succeeds with it, "
             "with the same status and identical headers except Allow-Headers, which is either identical or the full allowed list. Tie: history suite observing the state after every step; pairs09 suite (debug on/off responses of the Go middleware).",
             '6/C09', "None beyond the trusted base: the delta on failing preflights is bounded by C09_preflight_frame (only diagnostic headers and the status may differ) and C16_fail (debug off: nothing but Vary)."),
-    'C10': ('proof', 'Lean 4 2-safety theorem (reads-only lemmas per dispatch path) + differential tie',
+    'C10': ('proof', 'Lean 4 2-safety theorem (reads-only lemmas per dispatch path) + differential tie + the request path of middleware.go (closure of Wrap, the three handlers, the four pipeline steps) translated from Go to Lean on every run and proved equal to the model',
             "Theorems C10 / C10_accepted / C10_preserve (Props/C10.lean): for every decision oracle, accepted configuration, debug mode, pre-set headers "
             "and every ordered pair of requests with the same method agreeing (as header lookups) on the names listed in the Vary values the middleware "
             "added to the first response, the two responses are equal; earlier Vary values are kept as a prefix. Tie: serve suite (Vary compared like any header).",
             '6/C10', 'Agreement on a header is equality of lookups (absent differs from present-with-zero-values), DESIGN 8.2.'),
-    'C11': ('proof', 'Lean 4 theorem (dispatch + frame) + differential tie with identity/exactly-once instrumentation',
+    'C11': ('proof', 'Lean 4 theorem (dispatch + frame) + differential tie with identity/exactly-once instrumentation + the request path of middleware.go (closure of Wrap, the three handlers, the four pipeline steps) translated from Go to Lean on every run and proved equal to the model',
             "Theorems C11_dispatch / C11_preflight / C11_frame / C11_passthrough / C11 (Props/C11.lean): the handler is invoked iff the request is not a preflight "
             "(OPTIONS with at least one Origin and one ACRM value); preflights get a status from the middleware; on other requests no status is written, every header other than "
             "Vary/ACAO/ACAC/ACEH is untouched and Vary is only appended to; a passthrough middleware is the identity. Tie: serve suite with an inner handler recording "
@@ -102,7 +102,7 @@ CLAIMS = {
             "C13_constants / C13_alphabets (the regenerated length maxima, ports, separators and byte tables are the documented ones; the request-side cap is the sum of the maxima), C13_accepted_shape, C13_reject_null/_star/_file/_no_sep/_bad_first_byte, C13_parse_sound (the request-side lexer accepts nothing but serialisations), C13_accept_ipv6_canonical (for every IPv6 address that is not IPv4-mapped, the pattern with its RFC 5952 canonical text between brackets is accepted: net/netip on IPv6 text is modelled in Model/Net.lean, Net.fields_render proves parse(render(address)) = address for the model, and the driver compares the model with the library on every host the harness reports and on the exhaustive ip6x suite), C13_accepted_ipv6_form (the converse: an accepted IPv6 host is the canonical text of the address it parses to), C13_netip_hext (Props/C13.lean). "
             "Tie: `lex` suite (ParsePattern verdict and Reason, Parse results on grammar-directed strings, patterns at every maximum at once, single-defect and boundary-splice mutations), judged by an independent grammar oracle.",
             '6/C13', 'IPv6 literals and Punycode labels are judged by net/netip and x/net/idna, modelled as oracles: the theorems about them are relative to the oracle answers, which the tie takes from the real libraries per case; grey zones (`_`, hyphens in label positions 3-4, digit-leading last label) are excluded from the grammar.'),
-    'C14': ('proof', 'Lean 4 equivalence proof model = specification (induction over fuel/lines/elements; strict total order on byte strings) + differential tie',
+    'C14': ('proof', 'Lean 4 equivalence proof model = specification (induction over fuel/lines/elements; strict total order on byte strings) + differential tie + headers.Check with the binary search of the library spelled out proved equal to the model',
             "Theorems C14 / C14_sound / C14_browser / C14_wf (Props/C14.lean): for every SortedSet maintained by Add and every sequence of field lines over arbitrary bytes, "
             "the model of headers.Check (windowed comma cut of maxLen+3 bytes, bounded OWS trimming with its check-before-test order, global empty-element counter, IndexAfter on the "
             "suffix of the sorted set) equals Spec.approved: every element has at most one OWS byte per side, at most 16 (regenerated fact, proved = 16) elements are empty, the non-empty "
@@ -118,12 +118,12 @@ CLAIMS = {
             "Tie: the `twins` suite builds a twin by permuting/duplicating entries, re-casing header names, re-spelling normalisable methods and adding safelisted names, and compares the two Go middlewares' responses on derived requests in both debug modes; "
             "the validate and serve suites tie the model's folds and handler to the code.",
             '6/C15', 'C15_full takes both acceptances as hypotheses; C15_respelt discharges the second one for the transformations the property names (order, repetition, letter case of header names, normalisable method spellings, safelisted entries); both need the C01 hypothesis that the IPv6 oracle accepts no `*`-leading literal.'),
-    'C16': ('proof', 'Lean 4 theorem (value-provenance invariant of the preflight buffer) + differential tie',
+    'C16': ('proof', 'Lean 4 theorem (value-provenance invariant of the preflight buffer) + differential tie + the request path of middleware.go (closure of Wrap, the three handlers, the four pipeline steps) translated from Go to Lean on every run and proved equal to the model',
             "Theorems C16 / C16_fail / C16_distinct / C16_accepted (Props/C16.lean): debug off, any preflight: status is the single regenerated failure status or the configured "
             "success status (distinct for accepted configurations); with the failure status nothing but Vary changes; every header value the middleware sets is `*`, `true`, "
             "the configured max-age, `*,authorization` (only when the configuration allows all request headers, lists Authorization and is anonymous: the documented case) or a slice of the request (first Origin, first ACRM, the ACRH lines) - never the configured allow-lists. Tie: serve / servex suites and histories (debug off is a state of the documented state machine), with a judge that evaluates the same predicate on the implementation's response.",
             '6/C16', 'The failure status is a regenerated fact (403 today); a per-reason status breaks the fact-dependent model and the tie.'),
-    'C17': ('proof', 'Lean 4 theorems: totality of the model (structural recursion accepted by the kernel) + the preconditions of every manual index/slice of the Go code + recover-instrumented differential tie',
+    'C17': ('proof', 'Lean 4 theorems: totality of the model (structural recursion accepted by the kernel) + the preconditions of every manual index/slice of the Go code + recover-instrumented differential tie + index-level refinement of all 60 index/slice sites',
             "PARTIAL. Every function of the model is total by structural recursion. Theorems C17_value_nonempty / C17_insert_key_nonempty (the host value of every accepted pattern, and the key handed to the tree loop after stripping `*`, is non-empty; "
             "a subdomain pattern is `*.` + non-empty base: Tree.Insert's s[0] and hostOnly's Value[2:]), C17_indexAfter_lt (IndexAfter's precondition n < Size is maintained by Check), C17_cutAtComma_in_range (str[i+1:]), C17_bracket_end (str[1:end]), "
             "C17_status_range (uint8 status arithmetic cannot wrap for accepted configurations), C17_parsePort_hoist; C17_ix_parseScheme / _parsePort / _fastParseHost / _lastByte / _splitAtCommonSuffix / _trimOWS / _cutAtComma / _parse / _treeContains / _originAllowed (the request path Origin header -> Parse -> Tree.Contains on the parallel slices of the nodes) / _check (all of headers.Check with IndexAfter: start <= Size is a proved loop invariant) / _first / _insert / _asciiSet (the [8]uint32 bit set computes list membership for every byte): Model/Ix.lean transliterates the functions that index and slice strings by hand statement by statement with int counters and Go's checked s[i], s[lo:hi] (out of range or out of loop fuel = error), and for every input the index-level program returns ok of exactly what the list-level model returns (refinement, Proofs/IxRefine.lean); C17_ix_treeInsert / _treeBuild / _add / _upsertEdge / _deleteSameSign / _treeElems / C17_node_lengths (Model/IxTree.lean, Proofs/IxTreeRefine.lean: the configuration-time half of the radix tree on nodes that keep Go's five parallel fields; inserting any list of parsed patterns from the zero Tree never panics, gives the slice representation of the list-level tree C01 is proved about, and keeps len(edges) == len(children), len(schemes) == len(ports) at every node), C17_ix_parseHostPattern / _hostOnly / _acma (Proofs/IxPatternRefine.lean); C17_ix_bodies pins the text of the 27 transliterated functions (fingerprints regenerated on every run); C17_sites: the complete list of index and slice expressions of the non-test code (60 sites), each with the conditions that syntactically dominate it (left operands of the &&/|| chains it is a right operand of, enclosing if/for/range/case conditions, negations of earlier leave-guards; regenerated from the source on every run), equals the audited list, "
